@@ -273,9 +273,11 @@ Req(cmd, tok, ord, hdr, addr, ch, len, ttl, pow) ==
 A0 == CHOOSE a \in Addrs : TRUE
 GoodTok == IF TokenCfg THEN "exact" ELSE "none"
 GoodPow == IF PowOn THEN "valid" ELSE "missing"
+C0 == CHOOSE c \in Chunks : TRUE       \* the chunk STOREs carry; the other chunks stay unknown to the daemon
 AuthActs == {Req(cmd, tok, IF tok = "none" THEN "mid" ELSE ord, "none", A0, ch, "under", "mid", GoodPow) :
-               cmd \in {"STORE", "FETCH-STREAM", "FETCH-OUT"}, tok \in TokVariants, ord \in Orders3,
-               ch \in IF cmd = "STORE" THEN {CHOOSE c \in Chunks : TRUE} ELSE Chunks}     \* the other chunks stay unknown to the daemon
+               cmd \in {"FETCH-STREAM", "FETCH-OUT"}, tok \in TokVariants, ord \in Orders3, ch \in Chunks}
+            \cup {Req("STORE", tok, IF tok = "none" THEN "mid" ELSE ord, "none", A0, C0, "under", "mid", GoodPow) :
+               tok \in TokVariants, ord \in Orders3}
             \cup {Req("STOP", tok, IF tok = "none" THEN "mid" ELSE ord, "none", A0, CHOOSE c \in Chunks : TRUE, "under", "mid", GoodPow) :
                tok \in TokVariants, ord \in Orders3}
             \cup {Req(cmd, tok, "mid", "none", A0, CHOOSE c \in Chunks : TRUE, "under", "mid", GoodPow) : cmd \in {"LIST", "PING"}, tok \in {"none", "wrong"}}
